@@ -23,6 +23,10 @@ P = {
          'equality to the phase mobility for p = 1, invariance under every permutation of the phase rows, arguments (incl. -1 markers of possibly cached arrays) unchanged; labyrinth(1) = upper Wiener, labyrinth(n>=1) <= upper Wiener, factor clipped to [1,2]; '
          'post-processing acts on the row of the phase NAMED by the user among the stable phases for several stable-phase lists incl. single-phase and reordered, is idempotent, ignores absent phases; computeHomogenizationFunction passes the stable names.',
          'p <= 2 in the quick tier (p = 3 ordering in the thorough tier), e <= 2; p = 4 not attempted'),
+ 'C18': ('getStrengthContributions executed for each strengthening mechanism on symbolic positive radii/spacings: every weak, strong and Orowan entry is >= 0 after the code\'s filters, combined strength = Taylor factor x smallest branch (0 with no mechanism), '
+         'superposition (sum s_i^n)^(1/n) >= each part and monotone (power axioms); Zener drag never reverses/accelerates and freezes when strong enough (linear, pointwise); grain volume = 1 after normalisation (automatic sum linearity); '
+         'strength history gains exactly one entry per host step; grain model solves once over exactly the host step after updating the drag; transport = C07 contract, inner solve = C05 contract.',
+         'finiteness at zero radius/spacing, edge/screw constants (rounded), monotone mean grain size: undecided'),
  'C19': ('testCondition of all six condition classes x both inequalities executed on a PrecipitateBase object with a symbolic history: reads the monitored value at pData.n of the model it is '
          'given, latch, interpolated crossing time within [t(n-1), t(n)] (NRA), reset; stop decision of PrecipitateBase.postProcess for every or/and mix of <= 3 conditions; solver-loop stop clause (C05); TTP calculator wiring.',
          'P, E <= 2; model sub-steps of postProcess are arbitrary callables'),
